@@ -28,11 +28,14 @@ pub struct GrowCase {
     /// at every level, before descending, a side call through the growth point that returns
     /// (tree-shaped recursion: a growth that has ended is followed by further growth decisions)
     comb: bool,
+    /// the panic is caught at this level (counted like `panic_left`), i.e. INSIDE the callbacks of
+    /// the outer growths, and the recursion then returns normally through them
+    catch_at: Option<usize>,
 }
 
 impl GrowCase {
     fn to_json(&self) -> Value {
-        json!({"caller": if self.coroutine { "coroutine" } else { "thread" }, "depth": self.depth, "frame_kb": self.frame_kb, "red_zone": self.red_zone, "stack_size": self.stack_size, "panic_with_levels_left": self.panic_left, "side_call_at_every_level": self.comb})
+        json!({"caller": if self.coroutine { "coroutine" } else { "thread" }, "depth": self.depth, "frame_kb": self.frame_kb, "red_zone": self.red_zone, "stack_size": self.stack_size, "panic_with_levels_left": self.panic_left, "side_call_at_every_level": self.comb, "panic_caught_with_levels_left": self.catch_at})
     }
     fn from_json(v: &Value) -> Option<GrowCase> {
         Some(GrowCase {
@@ -43,11 +46,15 @@ impl GrowCase {
             stack_size: v.get("stack_size")?.as_u64()? as usize,
             panic_left: v.get("panic_with_levels_left").and_then(Value::as_u64).map(|x| x as usize),
             comb: v.get("side_call_at_every_level").and_then(Value::as_bool).unwrap_or(false),
+            catch_at: v.get("panic_caught_with_levels_left").and_then(Value::as_u64).map(|x| x as usize),
         })
     }
 }
 
 static MIN_ROOM: AtomicUsize = AtomicUsize::new(usize::MAX);
+/// (segments before the call that panicked) << 16 | (segments after its panic was caught); 0 = nothing recorded
+static CATCH_SEGS: AtomicUsize = AtomicUsize::new(0);
+static CATCH_AT: AtomicUsize = AtomicUsize::new(usize::MAX);
 static CALLBACKS: AtomicUsize = AtomicUsize::new(0);
 
 fn note_room(red_zone: usize) {
@@ -98,7 +105,24 @@ fn level<const KB: usize>(left: usize, red: usize, size: usize, panic_left: Opti
     if comb && 1 != side::<KB>(red, size) {
         return usize::MAX / 2;
     }
-    let below = if left > 0 { recurse::<KB>(left - 1, red, size, panic_left, comb) } else { 0 };
+    let below = if left > 0 {
+        if CATCH_AT.load(Ordering::Relaxed) == left {
+            // catch the panic of the deeper levels here, inside the callbacks of the outer growths
+            let segs = || SchedulableCoroutine::current().map_or(0, |co| co.stack_infos().len());
+            let before = segs();
+            let r = std::panic::catch_unwind(std::panic::AssertUnwindSafe(|| recurse::<KB>(left - 1, red, size, panic_left, comb)));
+            CATCH_SEGS.store((before << 16) | segs(), Ordering::Relaxed);
+            // growth decisions keep working from here
+            if comb && 1 != side::<KB>(red, size) {
+                return usize::MAX / 2;
+            }
+            r.unwrap_or(left)
+        } else {
+            recurse::<KB>(left - 1, red, size, panic_left, comb)
+        }
+    } else {
+        0
+    };
     below + 1 + usize::from(black_box(buf[0]) == 255 && left == 0)
 }
 
@@ -117,10 +141,12 @@ pub fn exec_grow(c: &GrowCase, em: &mut Emitter) {
     let body = {
         let c = c.clone();
         move || -> Value {
+            CATCH_AT.store(c.catch_at.unwrap_or(usize::MAX), Ordering::Relaxed);
             let infos_before = SchedulableCoroutine::current().map(|co| co.stack_infos().len());
             let first = std::panic::catch_unwind(std::panic::AssertUnwindSafe(|| go(&c, c.depth, c.panic_left)));
             let infos_mid = SchedulableCoroutine::current().map(|co| co.stack_infos().len());
             let min_room_first = MIN_ROOM.swap(usize::MAX, Ordering::Relaxed);
+            CATCH_AT.store(usize::MAX, Ordering::Relaxed);
             // deep recursion keeps working afterwards
             let second = std::panic::catch_unwind(std::panic::AssertUnwindSafe(|| go(&c, 50, None)));
             let infos_after = SchedulableCoroutine::current().map(|co| co.stack_infos().len());
@@ -129,7 +155,7 @@ pub fn exec_grow(c: &GrowCase, em: &mut Emitter) {
             let room2 = if m2 == usize::MAX { Value::Null } else { json!(m2) };
             let calls = CALLBACKS.load(Ordering::Relaxed);
             json!({"first": first.ok(), "second": second.ok(), "infos": [infos_before, infos_mid, infos_after],
-                "min_room_first": room1, "min_room_second": room2, "callbacks": calls})
+                "min_room_first": room1, "min_room_second": room2, "callbacks": calls, "segments_around_inner_catch": match CATCH_SEGS.load(Ordering::Relaxed) { 0 => Value::Null, x => json!([x >> 16, x & 0xffff]) }})
         }
     };
     em.emit(json!({"t":"begin"}));
@@ -175,7 +201,12 @@ pub fn judge_grow(c: &GrowCase, res: &ChildResult, rep: &mut Report) {
         return;
     }
     // the callback's value comes back
-    let want_first = if c.panic_left.is_some() { None } else { Some((c.depth + 1) as u64) };
+    // a panic caught at level k: the levels above k return normally (k stands in for the lost part)
+    let want_first = match (c.panic_left, c.catch_at) {
+        (Some(_), Some(k)) => Some((k + 1 + (c.depth - k)) as u64),
+        (Some(_), None) => None,
+        _ => Some((c.depth + 1) as u64),
+    };
     if o["first"].as_u64() != want_first {
         rep.violation(&format!("stk.grow/callback-value-returned/{who}"), format!("{}: the recursion returned {} (expected {want_first:?})", c.to_json(), o["first"]), replay());
         return;
@@ -196,6 +227,13 @@ pub fn judge_grow(c: &GrowCase, res: &ChildResult, rep: &mut Report) {
                     return;
                 }
             }
+        }
+        if let Some(a) = o["segments_around_inner_catch"].as_array() {
+            if a[0] != a[1] {
+                rep.violation(&format!("stk.grow/stack-segments-restored/{pclass}:caught-inside-outer-growth"), format!("{}: the coroutine reported {} segment(s) before the call that panicked and {} after the panic was caught (inside the callbacks of the outer growths)", c.to_json(), a[0], a[1]), replay());
+                return;
+            }
+            rep.witness("panics_caught_inside_outer_growths");
         }
         let infos = o["infos"].as_array().unwrap();
         if infos[1] != infos[0] || infos[2] != infos[0] {
@@ -232,7 +270,14 @@ pub fn grow_cases(tier: &str) -> Vec<GrowCase> {
                             continue;
                         }
                         for comb in [false, true] {
-                            v.push(GrowCase { coroutine, depth: *depth, frame_kb, red_zone, stack_size, panic_left, comb });
+                            v.push(GrowCase { coroutine, depth: *depth, frame_kb, red_zone, stack_size, panic_left, comb, catch_at: None });
+                            // the same panic caught half way up (needs levels between the two)
+                            if let Some(pl) = panic_left {
+                                let k = (pl + *depth) / 2 + 1;
+                                if k > pl && k <= *depth {
+                                    v.push(GrowCase { coroutine, depth: *depth, frame_kb, red_zone, stack_size, panic_left, comb, catch_at: Some(k) });
+                                }
+                            }
                         }
                     }
                 }
@@ -448,7 +493,7 @@ pub fn run(scen: &str, tier: &str, rep: &mut Report) -> bool {
             let cs = grow_cases(tier);
             rep.bounds = json!({"callers": ["coroutine", "thread"], "depths": if tier == "thorough" { json!([1, 10, 50, 200]) } else { json!([1, 10, 50]) }, "frames_kb": [1, 10],
                 "red_zone_stack_size": [["default", 131072], [16384, 65536], [65536, 131072]], "panic_points": ["none", "deepest", "middle", "first"], "then": "a second recursion of depth 50", "cases": cs.len()});
-            rep.require(&["coroutine_cases", "thread_cases", "caught_panics"]);
+            rep.require(&["coroutine_cases", "thread_cases", "caught_panics", "panics_caught_inside_outer_growths"]);
             for c in cs.iter().step_by((cs.len() / 4).max(1)).take(4) {
                 rep.sample(c.to_json());
             }
